@@ -67,7 +67,10 @@ class C03(Prop):
             "array and list right-hand sides on bool/int/float/object arrays; the `a.values = v` setter (scalar, 0-d, "
             "full-shape, trailing-dims, list and DimArray values of every kind, rank 0-3); per-dimension boolean masks of "
             "the WRONG length (shorter; longer with every True inside the axis; longer with a True beyond it) in an "
-            "otherwise readable index: must raise IndexError like the read and leave the array untouched. A fixed grid runs every (array "
+            "otherwise readable index: must raise IndexError like the read and leave the array untouched; refused writes "
+            "with cast=True and a widening right-hand side (a position beyond the axis or an absent label, as a scalar "
+            "or inside a list, in an otherwise readable index): IndexError, and - as for EVERY assignment that raises - "
+            "values, dtype kind, axes and metadata are what they were. A fixed grid runs every (array "
             "dtype, assigned kind/flavour) pair with cast through the setter, an indexed put and a boolean put. Array and "
             "axis metadata are set on every array and must come through unchanged. Independently of the model, an oracle "
             "recomputes every cell from the positions the same index reads (index-tracking array) and the broadcast "
@@ -255,6 +258,81 @@ class C03(Prop):
                 arr["vbase"] = 2 ** 24 + 1
         return c
 
+    @staticmethod
+    def index_slots(c):
+        """the per-dimension entries of the case's index as (holder, key, dimension): holder[key] is the entry that
+        addresses dimension number `dimension` (None for an index with an Ellipsis)"""
+        idx, axes = c["index"], c["array"]["axes"]
+        dims = [x["name"] for x in axes]
+        if idx["form"] == "tuple":
+            if any(x[0] == "el" for x in idx["ix"]):
+                return None
+            return [(idx["ix"], j, j) for j in range(min(len(idx["ix"]), len(axes)))]
+        if idx["form"] == "dict":
+            slots = []
+            for it in idx["items"]:
+                k = it[0]
+                d = dims.index(k[1]) if k[0] == "name" and k[1] in dims else k[1] % len(dims) if k[0] == "pos" and dims and -len(dims) <= k[1] < len(dims) else None
+                if d is not None:
+                    slots.append((it, 1, d))
+            return slots
+        k = idx["axis"]
+        d = dims.index(k[1]) if k[0] == "name" and k[1] in dims else k[1] % len(dims) if k[0] == "pos" and dims and -len(dims) <= k[1] < len(dims) else None
+        return [(idx, "ix", d)] if d is not None else []
+
+    def gen_refused(self, rng, tier):
+        """an index that reads fine, with one dimension's entry replaced by one the same read refuses - a position
+        beyond the axis (scalar, or inside a list / array of positions) or a label that is not on the axis - assigned
+        with cast=True and a right-hand side of a kind that WIDENS the array: the assignment must raise IndexError like
+        the read and change nothing, the dtype included (a cast performed before the refusal is a modification)"""
+        while True:
+            c = self.gen_case(rng, tier)
+            axes = c["array"]["axes"]
+            slots = self.index_slots(c)
+            if not slots or c["spelling"] == "nloc" or c.get("tol"):
+                continue
+            pos0 = self.positions(c)
+            if pos0 is None or pos0.size == 0:
+                # (an empty selection along another dimension: whether NumPy still checks the bounds of an index array
+                # then depends on which keys orthogonal_indexer leaves as slices; not part of any property)
+                continue
+            holder, key, d = rng.choice(slots)
+            n = len(axes[d]["labels"])
+            if c["mode"] == "position":
+                far = lambda: ["n", rng.choice([n + rng.randint(0, 2), -n - 1 - rng.randint(0, 2)]), 1]
+                if rng.random() < 0.4:
+                    holder[key] = ["sc", far()]
+                    what = "position_scalar"
+                else:
+                    ps = [["n", rng.randrange(n), 1] for _ in range(rng.randint(0, 2))] if n else []
+                    ps.insert(rng.randint(0, len(ps)), far())
+                    holder[key] = ["li", ps]
+                    what = "position_list"
+            else:
+                if rng.random() < 0.4:
+                    holder[key] = ["sc", gen.absent_label(rng, axes[d], frac=True)]
+                    what = "label_scalar"
+                else:
+                    ls = [rng.choice(axes[d]["labels"]) for _ in range(rng.randint(0, 2))] if n else []
+                    ls.insert(rng.randint(0, len(ls)), gen.absent_label(rng, axes[d], frac=True))
+                    holder[key] = ["li", ls]
+                    what = "label_list"
+            if self.positions(c) is not None:
+                continue            # (e.g. a dict that names the dimension twice: the replaced entry is not the one read)
+            akind = rng.choice(["i", "i", "b", "f"])
+            c["array"] = dict(c["array"], vkind=akind)
+            c["array"].pop("vcast", None); c["array"].pop("vbase", None)
+            c["cast"] = True
+            c["rkind"] = {"i": rng.choice(["f", "O"]), "b": rng.choice(["i", "f", "O"]), "f": "O"}[akind]
+            c.pop("rflavour", None)
+            if c["rkind"] == "f":
+                c["rflavour"] = "frac"
+            c["rhs"] = "scalar"               # (the selection has no shape to broadcast an array to)
+            c.pop("rhs_as", None)
+            c["refused"] = what
+            c["_ixkinds"] = list(c.get("_ixkinds", [])) + ["refused", "refused_" + what]
+            return c
+
     def gen_badmask(self, rng, tier):
         """an index that reads fine, with one dimension's entry replaced by a boolean mask whose length is NOT the
         length of that axis (shorter, longer with every True inside the axis, longer with a True beyond it): reading
@@ -262,23 +340,8 @@ class C03(Prop):
         the array as it was (a length-0 mask is not generated: NumPy reads an empty selection through it)"""
         while True:
             c = self.gen_case(rng, tier)
-            idx, axes = c["index"], c["array"]["axes"]
-            dims = [x["name"] for x in axes]
-            if idx["form"] == "tuple":
-                if any(x[0] == "el" for x in idx["ix"]):
-                    continue
-                slots = [(idx["ix"], j, j) for j in range(min(len(idx["ix"]), len(axes)))]
-            elif idx["form"] == "dict":
-                slots = []
-                for it in idx["items"]:
-                    k = it[0]
-                    d = dims.index(k[1]) if k[0] == "name" and k[1] in dims else k[1] % len(dims) if k[0] == "pos" and dims and -len(dims) <= k[1] < len(dims) else None
-                    if d is not None:
-                        slots.append((it, 1, d))
-            else:
-                k = idx["axis"]
-                d = dims.index(k[1]) if k[0] == "name" and k[1] in dims else k[1] % len(dims) if k[0] == "pos" and dims and -len(dims) <= k[1] < len(dims) else None
-                slots = [(idx, "ix", d)] if d is not None else []
+            axes = c["array"]["axes"]
+            slots = self.index_slots(c)
             if not slots or c["spelling"] == "nloc" or self.positions(c) is None:
                 continue
             holder, key, d = rng.choice(slots)
@@ -329,7 +392,7 @@ class C03(Prop):
         for _ in range(n):
             r = rng.random()
             yield (self.gen_boolnd(rng) if r < 0.10 else self.gen_setter(rng) if r < 0.18 else self.gen_badmask(rng, tier) if r < 0.24
-                   else self.gen_case(rng, tier))
+                   else self.gen_refused(rng, tier) if r < 0.30 else self.gen_case(rng, tier))
 
     # ------------------------------------------------------------ implementation side
     def build(self, arr):
@@ -603,6 +666,16 @@ class C03(Prop):
                 prop_bad.append("badmask.errclass:" + io["err"])
             if io["orig_after"] != io["orig_before"] or io["meta_after"] != io["meta_before"]:
                 prop_bad.append("badmask.original_modified")
+        if c.get("refused"):
+            # the same index reads nothing (IndexError): the assignment must say so
+            if "err" not in io:
+                prop_bad.append("refused.accepted")
+            elif io["err"] != "index":
+                prop_bad.append("refused.errclass:" + io["err"])
+        if "err" in io and (io["orig_after"] != io["orig_before"] or io["meta_after"] != io["meta_before"]):
+            # an assignment that raises has written nothing: values, dtype kind, axes and metadata are what they were
+            # (cast=True must not widen the array before the index / the right-hand side is refused)
+            prop_bad.append("refused.original_modified")
         if "ok" in io:
             res = io["ok"]["result"]
             before = io["orig_before"]
@@ -660,7 +733,7 @@ class C03(Prop):
              "cast": c["cast"], "inplace": c["inplace"], "rhs": c["rhs"], "spelling": c["spelling"], "mode": c["mode"],
              "rhs_as": c.get("rhs_as", "plain"), "vdtype": c["array"].get("vcast", "default"),
              "tol": "nloc" if c["spelling"] == "nloc" else "tol=" if c.get("tol") else "none",
-             "stratum": "boolnd" if c.get("boolnd") is not None else "values_setter" if c.get("setter") else "badmask" if c.get("badmask") else "index",
+             "stratum": "boolnd" if c.get("boolnd") is not None else "values_setter" if c.get("setter") else "badmask" if c.get("badmask") else "refused" if c.get("refused") else "index",
              "modelled": self.modelled(c)}
         if c.get("boolnd") is not None:
             f["boolnd.mask"] = c.get("maskform", "ndarray")
